@@ -47,6 +47,12 @@ CLAIMED = {
         "note": "Trusted: z3, symx, SymRotation contract. Bounds: axes/coords with an arbitrary unit quaternion; rotation-vector operations with 4 (quick) / 30 exact rational molecule orientations. NOT covered (stated): Molecules.from_axes / axes_to_rotator incl. anti-parallel and mixed batches (sqrt/arctan2 chains not encoded) - that clause of the property is not decided by this check.",
         "ref": "DESIGN.md §4 C11",
     },
+    "C12": {
+        "text": "Molecule tables with distinct symbolic tags (z3 constants in polars Object columns) for position and orientation plus a tag feature are pushed through all 26 parameterised table operations and all ordered pairs of them on the REAL polars: every output row carries one tag in position, orientation and features; "
+                "the rows are those an independent list oracle selects (order per contract); inputs untouched; group_by/cutby partition with matching keys; symbolic integer arguments of subset/head/tail forked by the explorer; listed inconsistent inputs raise.",
+        "note": "Trusted: z3, symx, the real polars (Object-column row semantics), SymRotation rotvec<->quat pair. Bounds: 0/1/3-row tables (5 after concat), single operations and ordered pairs (no triples), concrete key columns (2/4 orderings incl. ties). The solver's part is small here (tag equalities and integer case splits); the value is the exhaustive path enumeration on the real code.",
+        "ref": "DESIGN.md §4 C12",
+    },
     "C14": {
         "text": "Placement rule decided for symbolic position, scale, template sides (both parities) and rotation matrix: tomogram voxel t of the pasted fragment reads template coordinate (shape-1)/2 + R^-1(t - pos/scale); "
                 "_prep_slices decided over unbounded integers for every clipping case (pairing t<->t-start, exactly the overlap kept, non-overlapping fragments dropped); simulate/simulate_2d executed on a recording canvas: one += per molecule from its component's template at its own slice, 2-D = z-sum.",
